@@ -6,9 +6,9 @@ import (
 	"os"
 	"path/filepath"
 	"sync"
+	"sync/atomic"
 	"time"
 
-	"github.com/xelaj/mtproto/internal/session"
 	"github.com/xelaj/mtproto/zverif/ref/mtp"
 	"github.com/xelaj/mtproto/zverif/refserver"
 	"github.com/xelaj/mtproto/zverif/wk"
@@ -24,9 +24,11 @@ type c11step struct {
 	Rejected  int
 	Announce  bool // rotate by new_session_created instead of by rejecting (no rejection expected)
 	LateFirst bool // release the withheld answers before the rejected ones are answered
+	Twice     bool // the server rotates a second time as soon as it has rejected something under the first new salt
 }
 
 type c11history struct {
+	MemStore    bool // the application's own session storage (Config.SessionStorage) instead of a file
 	StoreBroken bool // the session store cannot be written while the rotations happen (directory gone)
 	Fresh       bool
 	Steps       []c11step
@@ -73,6 +75,11 @@ func c11histories(c *wk.Ctx) []c11history {
 		c11history{Bundle: true, Fresh: true, Steps: []c11step{{Accepted: 2, Rejected: 2}}, Kinds: rpcKinds},
 		c11history{Bundle: true, Back: true, Steps: []c11step{{Accepted: 1, Rejected: 1}, {Accepted: 2, Rejected: 1}, {Accepted: 1, Rejected: 1}}, Kinds: rpcKinds})
 	out = append(out,
+		c11history{MemStore: true, Steps: []c11step{{Rejected: 1, Twice: true}}, Kinds: []string{"object"}},
+		c11history{MemStore: true, Steps: []c11step{{Accepted: 1, Rejected: 2, Twice: true}, {Rejected: 1, Twice: true}}, Kinds: rpcKinds},
+		c11history{Steps: []c11step{{Rejected: 2, Twice: true}}, Kinds: rpcKinds},
+		c11history{MemStore: true, Steps: []c11step{{Rejected: 1}, {Announce: true, Accepted: 1}}, Kinds: rpcKinds},
+		c11history{MemStore: true, Fresh: true, Steps: []c11step{{Accepted: 1, Rejected: 2}}, Kinds: rpcKinds},
 		c11history{StoreBroken: true, Steps: []c11step{{Rejected: 1}}, Kinds: []string{"object"}},
 		c11history{StoreBroken: true, Steps: []c11step{{Accepted: 2, Rejected: 2}, {Rejected: 1}}, Kinds: rpcKinds},
 		c11history{StoreBroken: true, Fresh: true, Steps: []c11step{{Announce: true, Accepted: 1}, {Accepted: 1, Rejected: 1}}, Kinds: rpcKinds})
@@ -94,9 +101,9 @@ func c11(c *wk.Ctx) {
 	for k := 0; k < c.Pick(20, 1000); k++ {
 		if c.Mine(idx) {
 			r := c.Rand(idx)
-			h := c11history{Fresh: r.Intn(4) == 0, Kinds: rpcKinds, Bundle: r.Intn(3) == 0, Back: r.Intn(3) == 0, StoreBroken: r.Intn(6) == 0}
+			h := c11history{Fresh: r.Intn(4) == 0, Kinds: rpcKinds, Bundle: r.Intn(3) == 0, Back: r.Intn(3) == 0, StoreBroken: r.Intn(6) == 0, MemStore: r.Intn(4) == 0}
 			for s := 1 + r.Intn(3); s > 0; s-- {
-				h.Steps = append(h.Steps, c11step{Accepted: r.Intn(4), Rejected: r.Intn(4), Announce: r.Intn(6) == 0, LateFirst: r.Intn(2) == 0})
+				h.Steps = append(h.Steps, c11step{Accepted: r.Intn(4), Rejected: r.Intn(4), Announce: r.Intn(6) == 0, LateFirst: r.Intn(2) == 0, Twice: r.Intn(5) == 0})
 			}
 			c.Begin(idx, toJSON(h))
 			c11case(c, idx, r, h)
@@ -116,7 +123,8 @@ func c11case(c *wk.Ctx, idx int, r *rand.Rand, h c11history) {
 	var grace int64        // a salt announced by new_session_created is valid at once; the previous one stays valid until the client has acknowledged
 	graceOn := false
 	e, err := newRPCEnv(c, idx, r, envOpts{
-		Fresh: h.Fresh,
+		Fresh:    h.Fresh,
+		MemStore: h.MemStore,
 		Any: func(e *rpcEnv, cn *refserver.Conn, in *mtp.Inner) bool {
 			cur := e.salt()
 			mu.Lock()
@@ -164,7 +172,7 @@ func c11case(c *wk.Ctx, idx int, r *rand.Rand, h c11history) {
 		return
 	}
 	defer e.close()
-	if h.StoreBroken {
+	if h.StoreBroken && !h.MemStore {
 		// the directory of the session file disappears (volume unmounted, directory cleaned up): saving the new salt
 		// fails from now on; the calls are owed their answers all the same
 		os.RemoveAll(filepath.Dir(e.sess))
@@ -319,7 +327,31 @@ func c11case(c *wk.Ctx, idx int, r *rand.Rand, h c11history) {
 		if st.LateFirst {
 			release()
 		}
+		if st.Twice && e.mem != nil {
+			atomic.StoreInt32(&e.mem.slowNext, 1) // the first of the two saves meets a slow medium
+		}
+		mu.Lock()
+		rejectedBefore := rejectedFrames
+		mu.Unlock()
 		launch(st.Rejected, false, &wgR)
+		if st.Twice && st.Rejected > 0 && !st.Announce {
+			// two rotations close together: as soon as the first rejection is out, the salt changes again; what ends up
+			// in the store is the salt in force at the end
+			for w := 0; w < 3000; w++ {
+				mu.Lock()
+				seen := rejectedFrames > rejectedBefore
+				mu.Unlock()
+				if seen {
+					break
+				}
+				time.Sleep(time.Millisecond)
+			}
+			newSalt = int64(r.Uint64())
+			saltTrail = append(saltTrail, newSalt)
+			e.srv.SetSalt(e.key, newSalt)
+			e.w.emit("srv.rotate", map[string]interface{}{"salt": fmt.Sprint(newSalt), "second": true})
+			c.Count("rotations.second_right_after_first", 1)
+		}
 		if !withTimeout(30*time.Second, wgR.Wait) {
 			fail(fmt.Sprintf("step%d-rejected", si))
 			return
@@ -333,13 +365,13 @@ func c11case(c *wk.Ctx, idx int, r *rand.Rand, h c11history) {
 		}
 		// the adopted salt must be in the session store
 		e.quiesce(time.Second)
-		if _, serr := os.Stat(e.sess); serr == nil {
+		if _, serr := e.storedSession(); serr == nil || e.mem != nil {
 			// the client rewrites the file whenever it adopts a salt (e.g. when an acknowledgement is rejected later);
 			// a read that races with such a rewrite sees a torn file, which the store property allows — read again
-			s, lerr := session.NewFromFile(e.sess).Load()
+			s, lerr := e.storedSession()
 			for retry := 0; retry < 50 && (lerr != nil || (st.Rejected > 0 || st.Announce) && s.Salt != newSalt); retry++ {
 				time.Sleep(10 * time.Millisecond)
-				s, lerr = session.NewFromFile(e.sess).Load()
+				s, lerr = e.storedSession()
 			}
 			if lerr != nil || (st.Rejected > 0 || st.Announce) && s.Salt != newSalt {
 				got := int64(0)
